@@ -16,7 +16,13 @@
                 and puts it into in_queue (nothing when the CPX payload is empty)
      Connect    TcpDriver.connect wrote its SYSTEM packet
      UserRecv   TcpDriver.receive_packet returned a packet
-     SendCrtp(c) TcpDriver.send_packet(c): one CPX packet HOST->STM32/CRTP written to the socket
+     SendBegin(s,it,fresh)  sender thread s enters TcpDriver.send_packet with a CRTP packet object
+                (fresh: an object it has just built; otherwise the object of its previous call once
+                more -- a cached set-point, the retry of an unanswered request), or enters
+                CPX.sendPacket with a CPX packet of its own (an application using the same link)
+     Write(s)   SocketTransport.writePacket: ONE socket write of length prefix + wire data (every
+                socket write is a scheduling point: other senders' writes may come before and after)
+     SendEnd(s) the call returned; the caller's packet object is what it was
    The environment chooses the packets (AddPacket), when the peer starts sending (Start) and
    the size k of every fragment: all ways of cutting the stream are all choices of k.
 
@@ -32,8 +38,9 @@ CONSTANTS Packets,        \* set of packets the peer may send
           MaxPackets,
           NR,             \* receivers 1..NR (router/tcp mode)
           RFns,           \* functions receivers may ask for
-          Crtps,          \* CRTP packets the user may send (tcp mode)
-          MaxSends,
+          SendSets,       \* sender thread -> items it may send (tcp mode), see CpxProps (5):
+                          \* <<0, crtp>> through send_packet, <<1, outcome>> through CPX.sendPacket
+          MaxSends,       \* calls in total
           Mode, LateRegister, Bug
 
 P == INSTANCE CpxProps
@@ -46,10 +53,13 @@ VARIABLES mode,           \* = Mode (a variable so that the trace spec can set i
           pos,            \* bytes the socket has handed out
           rd, need, buf,  \* reader: pc, size argument and data of the running _readData
           inq,            \* TcpDriver.in_queue (CRTP packets)
-          tx, sent,       \* bytes written to the socket; CRTP packets given to send_packet
+          tx, sent,       \* bytes written to the socket (write order); <<sender, item, fresh>> per call
+          spc, sobj,      \* per sender: "idle" | "called" | "lenw" | "done"; its packet object:
+                          \* <<item as the caller built it, item as the object reads now>> or <<>>
           reads, deliv, crtps     \* histories (see CpxProps)
 
-vars == <<mode, phase, pkts, stream, rfn, hasq, queues, pos, rd, need, buf, inq, tx, sent, reads, deliv, crtps>>
+vars == <<mode, phase, pkts, stream, rfn, hasq, queues, pos, rd, need, buf, inq, tx, sent, spc, sobj, reads, deliv, crtps>>
+Senders == DOMAIN spc
 
 Rcv0 == IF Mode = "router" THEN 1..NR ELSE IF Mode = "tcp" THEN 0..NR ELSE {}
 Rcv == DOMAIN rfn
@@ -69,6 +79,9 @@ DecodeWire(w) ==
 
 SystemHello == <<3, 1, 1, 0, 0, <<33, 1>>>>        \* TcpDriver.connect: SYSTEM [0x21, 0x01]
 CrtpCpx(c) == <<3, 1, P!FnCRTP, 0, 0, <<c[1] * 16 + 12 + c[2]>> \o c[3]>>
+\* the CPX packet (6-tuple of CpxProps) an item travels as
+CpxOfItem(it) == IF it[1] = 0 THEN CrtpCpx(it[2])
+                 ELSE <<it[2][2], it[2][3], it[2][4], it[2][5], 0, it[2][6]>>
 
 Init == /\ mode = Mode /\ phase = "setup"
         /\ pkts = <<>> /\ stream = <<>>
@@ -76,18 +89,19 @@ Init == /\ mode = Mode /\ phase = "setup"
         /\ hasq = {} /\ queues = [f \in P!Functions |-> <<>>]
         /\ pos = 0 /\ rd = "idle" /\ need = 0 /\ buf = <<>>
         /\ inq = <<>> /\ tx = <<>> /\ sent = <<>>
+        /\ spc = [s \in DOMAIN SendSets |-> "idle"] /\ sobj = [s \in DOMAIN SendSets |-> <<>>]
         /\ reads = <<>> /\ deliv = <<>> /\ crtps = <<>>
 
 \* ---------------------------------------------------------------- environment
 AddPacket(p) == /\ phase = "setup" /\ Len(pkts) < MaxPackets
                 /\ pkts' = Append(pkts, p)
                 /\ stream' = stream \o P!Frame(p)
-                /\ UNCHANGED <<mode, phase, rfn, hasq, queues, pos, rd, need, buf, inq, tx, sent, reads, deliv, crtps>>
+                /\ UNCHANGED <<mode, phase, rfn, hasq, queues, pos, rd, need, buf, inq, tx, sent, spc, sobj, reads, deliv, crtps>>
 
 Start == /\ phase = "setup"
          /\ mode = "tcp" => rfn[0] # 0 /\ tx # <<>>     \* connect() through, receive thread is up
          /\ phase' = "run"
-         /\ UNCHANGED <<mode, pkts, stream, rfn, hasq, queues, pos, rd, need, buf, inq, tx, sent, reads, deliv, crtps>>
+         /\ UNCHANGED <<mode, pkts, stream, rfn, hasq, queues, pos, rd, need, buf, inq, tx, sent, spc, sobj, reads, deliv, crtps>>
 
 \* ---------------------------------------------------------------- receivers
 Register(r, f) == /\ r \in Rcv /\ rfn[r] = 0
@@ -95,12 +109,12 @@ Register(r, f) == /\ r \in Rcv /\ rfn[r] = 0
                   /\ r = 0 <=> (mode = "tcp" /\ f = P!FnCRTP)     \* the driver owns the CRTP queue
                   /\ rfn' = [rfn EXCEPT ![r] = f]
                   /\ hasq' = hasq \cup {f}
-                  /\ UNCHANGED <<mode, phase, pkts, stream, queues, pos, rd, need, buf, inq, tx, sent, reads, deliv, crtps>>
+                  /\ UNCHANGED <<mode, phase, pkts, stream, queues, pos, rd, need, buf, inq, tx, sent, spc, sobj, reads, deliv, crtps>>
 
 \* TcpDriver.connect: after starting its threads it sends the SYSTEM packet [0x21, 0x01]
 Connect == /\ mode = "tcp" /\ phase = "setup" /\ tx = <<>>
            /\ tx' = P!Frame(SystemHello)
-           /\ UNCHANGED <<mode, phase, pkts, stream, rfn, hasq, queues, pos, rd, need, buf, inq, sent, reads, deliv, crtps>>
+           /\ UNCHANGED <<mode, phase, pkts, stream, rfn, hasq, queues, pos, rd, need, buf, inq, sent, spc, sobj, reads, deliv, crtps>>
 
 Get(r) == /\ r \in Rcv /\ rfn[r] # 0
           /\ queues[rfn[r]] # <<>>
@@ -108,28 +122,60 @@ Get(r) == /\ r \in Rcv /\ rfn[r] # 0
              /\ deliv' = Append(deliv, <<r, rfn[r], o>>)
              /\ inq' = IF r = 0 /\ Len(o[6]) > 0 THEN Append(inq, P!CrtpOfData(o[6])) ELSE inq
           /\ queues' = [queues EXCEPT ![rfn[r]] = IF Bug = "lifo" THEN SubSeq(@, 1, Len(@) - 1) ELSE Tail(@)]
-          /\ UNCHANGED <<mode, phase, pkts, stream, rfn, hasq, pos, rd, need, buf, tx, sent, reads, crtps>>
+          /\ UNCHANGED <<mode, phase, pkts, stream, rfn, hasq, pos, rd, need, buf, tx, sent, spc, sobj, reads, crtps>>
 
 UserRecv == /\ mode = "tcp" /\ inq # <<>>
             /\ crtps' = Append(crtps, Head(inq)) /\ inq' = Tail(inq)
-            /\ UNCHANGED <<mode, phase, pkts, stream, rfn, hasq, queues, pos, rd, need, buf, tx, sent, reads, deliv>>
+            /\ UNCHANGED <<mode, phase, pkts, stream, rfn, hasq, queues, pos, rd, need, buf, tx, sent, spc, sobj, reads, deliv>>
 
-SendCrtp(c) == /\ mode = "tcp" /\ tx # <<>> /\ Len(sent) < MaxSends
-               /\ sent' = Append(sent, c)
-               /\ tx' = tx \o (IF Bug = "tx_no_header" THEN P!Frame(<<3, 1, P!FnCRTP, 0, 0, c[3]>>)
-                               ELSE P!Frame(CrtpCpx(c)))
-               /\ UNCHANGED <<mode, phase, pkts, stream, rfn, hasq, queues, pos, rd, need, buf, inq, reads, deliv, crtps>>
+\* ---------------------------------------------------------------- senders
+\* the bytes one call puts on the wire, from what the packet object reads at that moment
+FrameOfObj(o) == IF Bug = "tx_no_header" /\ o[1] = 0 THEN P!Frame(<<3, 1, P!FnCRTP, 0, 0, o[2][3]>>)
+                 ELSE P!Frame(CpxOfItem(o))
+\* defect variant "inplace_header": send_packet inserts the CRTP header into the caller's data
+Touched(o) == IF Bug = "inplace_header" /\ o[1] = 0
+              THEN <<0, <<o[2][1], o[2][2], <<o[2][1] * 16 + 12 + o[2][2]>> \o o[2][3]>>>>
+              ELSE o
+
+SendBegin(s, it, fresh) ==
+    /\ mode = "tcp" /\ tx # <<>> /\ Len(sent) < MaxSends
+    /\ s \in Senders /\ spc[s] = "idle"
+    /\ IF fresh THEN sobj' = [sobj EXCEPT ![s] = <<it, it>>]
+                ELSE sobj[s] # <<>> /\ it = sobj[s][1] /\ it[1] = 0 /\ UNCHANGED sobj
+    /\ sent' = Append(sent, <<s, it, fresh>>)
+    /\ spc' = [spc EXCEPT ![s] = "called"]
+    /\ UNCHANGED <<mode, phase, pkts, stream, rfn, hasq, queues, pos, rd, need, buf, inq, tx, reads, deliv, crtps>>
+
+\* one socket write; the defect variant "split_write" writes the length prefix and the wire data
+\* with two calls (two scheduling points)
+Write(s) ==
+    /\ s \in Senders
+    /\ \/ /\ spc[s] = "called"
+          /\ LET fr == FrameOfObj(sobj[s][2]) IN
+             IF Bug = "split_write"
+             THEN tx' = tx \o SubSeq(fr, 1, 2) /\ spc' = [spc EXCEPT ![s] = "lenw"]
+             ELSE tx' = tx \o fr /\ spc' = [spc EXCEPT ![s] = "done"]
+          /\ sobj' = [sobj EXCEPT ![s] = <<@[1], Touched(@[2])>>]
+       \/ /\ spc[s] = "lenw"
+          /\ LET fr == P!Frame(CpxOfItem(sobj[s][2])) IN tx' = tx \o SubSeq(fr, 3, Len(fr))
+          /\ spc' = [spc EXCEPT ![s] = "done"]
+          /\ UNCHANGED sobj
+    /\ UNCHANGED <<mode, phase, pkts, stream, rfn, hasq, queues, pos, rd, need, buf, inq, sent, reads, deliv, crtps>>
+
+SendEnd(s) == /\ s \in Senders /\ spc[s] = "done"
+              /\ spc' = [spc EXCEPT ![s] = "idle"]
+              /\ UNCHANGED <<mode, phase, pkts, stream, rfn, hasq, queues, pos, rd, need, buf, inq, tx, sent, sobj, reads, deliv, crtps>>
 
 \* ---------------------------------------------------------------- reader
 BeginRead == /\ rd = "idle"                 \* (the reader may block in recv before the peer sends)
              /\ rd' = "len" /\ need' = 2 /\ buf' = <<>>
-             /\ UNCHANGED <<mode, phase, pkts, stream, rfn, hasq, queues, pos, inq, tx, sent, reads, deliv, crtps>>
+             /\ UNCHANGED <<mode, phase, pkts, stream, rfn, hasq, queues, pos, inq, tx, sent, spc, sobj, reads, deliv, crtps>>
 
 Recv(k) == /\ phase = "run" /\ rd \in {"len", "body"} /\ Len(buf) < need
            /\ k \in 1..Min(need - Len(buf), Len(stream) - pos)
            /\ buf' = buf \o SubSeq(stream, pos + 1, pos + k)
            /\ pos' = pos + k
-           /\ UNCHANGED <<mode, phase, pkts, stream, rfn, hasq, queues, rd, need, inq, tx, sent, reads, deliv, crtps>>
+           /\ UNCHANGED <<mode, phase, pkts, stream, rfn, hasq, queues, rd, need, inq, tx, sent, spc, sobj, reads, deliv, crtps>>
 
 \* _readData returns when it has `need` bytes (the defect variant: after the first recv)
 Filled == IF Bug = "single_recv" /\ rd = "body" THEN Len(buf) > 0 \/ need = 0 ELSE Len(buf) = need
@@ -137,7 +183,7 @@ Filled == IF Bug = "single_recv" /\ rd = "body" THEN Len(buf) > 0 \/ need = 0 EL
 GotLen == /\ rd = "len" /\ Filled
           /\ need' = IF Bug = "be_len" THEN buf[1] * 256 + buf[2] ELSE buf[1] + 256 * buf[2]
           /\ buf' = <<>> /\ rd' = "body"
-          /\ UNCHANGED <<mode, phase, pkts, stream, rfn, hasq, queues, pos, inq, tx, sent, reads, deliv, crtps>>
+          /\ UNCHANGED <<mode, phase, pkts, stream, rfn, hasq, queues, pos, inq, tx, sent, spc, sobj, reads, deliv, crtps>>
 
 RouteKey(o) == IF Bug = "route_by_dst" THEN o[3] ELSE o[4]
 
@@ -148,14 +194,15 @@ Deliver == /\ rd = "body" /\ Filled
                            THEN [queues EXCEPT ![RouteKey(o)] = Append(@, o)]
                            ELSE queues
            /\ rd' = "idle" /\ buf' = <<>> /\ need' = 0
-           /\ UNCHANGED <<mode, phase, pkts, stream, rfn, hasq, pos, inq, tx, sent, deliv, crtps>>
+           /\ UNCHANGED <<mode, phase, pkts, stream, rfn, hasq, pos, inq, tx, sent, spc, sobj, deliv, crtps>>
 
 Next == \/ \E p \in Packets : AddPacket(p)
         \/ Start
         \/ \E r \in Rcv, f \in RFns \cup {P!FnCRTP} : Register(r, f)
         \/ \E r \in Rcv : Get(r)
         \/ UserRecv \/ Connect
-        \/ \E c \in Crtps : SendCrtp(c)
+        \/ \E s \in Senders : \/ \E it \in SendSets[s], fresh \in BOOLEAN : SendBegin(s, it, fresh)
+                              \/ Write(s) \/ SendEnd(s)
         \/ BeginRead \/ (\E k \in 1..(need - Len(buf)) : Recv(k)) \/ GotLen \/ Deliver
 
 Spec == Init /\ [][Next]_vars
@@ -178,8 +225,11 @@ RouteLate == \A i \in DOMAIN deliv :
                 /\ deliv[i][3][1] = 1 /\ deliv[i][3][4] = deliv[i][2]
                 /\ P!IsSubseq(P!HandedFor(deliv, deliv[i][2]), P!Accepted(pkts, deliv[i][2]))
 DownOK == mode = "tcp" /\ ~LateRegister => P!DownClause(pkts, crtps, Quiescent) = "ok"
-UpOK == mode = "tcp" => P!UpClause(sent, tx) = "ok"
+SentHist == [i \in DOMAIN sent |-> <<sent[i][1], sent[i][2]>>]
+UpOK == mode = "tcp" /\ (\A s \in Senders : spc[s] = "idle") => P!UpClause(SentHist, tx) = "ok"
 TypeOK == /\ mode = Mode /\ phase \in {"setup", "run"} /\ rd \in {"idle", "len", "body"}
           /\ pos \in 0..Len(stream) /\ Len(buf) <= need
           /\ stream = P!Stream(pkts)
+          /\ \A s \in Senders : spc[s] \in {"idle", "called", "lenw", "done"}
+          /\ P!OwnKeys(SentHist)
 =============================================================================
